@@ -3,7 +3,8 @@ import sys, random, collections
 sys.path.insert(0, '/verif/tools')
 import vlib, props
 name = sys.argv[1]; tier = sys.argv[2] if len(sys.argv) > 2 else 'quick'; seed = int(sys.argv[3]) if len(sys.argv) > 3 else 1
-comp = getattr(props, name)()
+args = [a for a in sys.argv[4:]]
+comp = getattr(props, name)(*args)
 rng = random.Random(seed)
 cases = comp.cases(rng, tier, 1)
 print(len(cases), 'cases')
